@@ -8,6 +8,7 @@ import json
 from fractions import Fraction
 from common import *  # noqa
 import linalg_ops as LA
+import linalg_families as LF
 from linalg_ops import MGen, Engine, tok, toks_of, flat, has_nonfinite, S
 
 LEVEL = "translation_validation"
@@ -27,10 +28,26 @@ EIG_CLASSES = ["general", "general", "symmetric", "hermitian", "upper", "lower",
                "zero_rows", "zero", "identity", "hilbert", "spd"]
 
 
-def _mk(g, classes, max_n=8):
+# structured inputs (linalg_families): deflation / splitting branches of the QR iterations (exact or tiny zeros inside the
+# Hessenberg form, block triangular / block diagonal, zero rows and columns, low rank) and the sign choices of the Householder
+# reductions (graded, dominant diagonal, nearly triangular)
+EIG_FAMILIES = ["hess_zeros", "hess_zeros", "hess_zeros", "block_tri", "block_tri", "block_diag", "graded_rows", "graded_cols",
+                "graded_both", "diagdom", "near_upper", "near_lower", "zero_cols", "zero_rows", "dup", "lowrank", "bidiag", "sparse",
+                "zero_diag"]
+P_STRUCTURED = 0.25
+
+
+def _mk(g, classes, max_n=8, structured=False):
     r = g.r
     p = g.prec()
     n = min(g.size(), max_n)
+    if structured or r.random() < P_STRUCTURED:
+        fam = r.choice(EIG_FAMILIES)
+        cplx = r.random() < 0.4
+        A = LF.hessenberg_zeros(g, n, p, cplx) if fam == "hess_zeros" else LF.rect_family(g, fam, n, n, p, cplx)
+        g.note("class", "fam:" + fam)
+        g.note("field", "complex" if cplx else "real")
+        return p, n, "fam:" + fam, cplx, A
     cls = r.choice(classes)
     if cls == "hilbert":
         n = min(n, 6)
@@ -65,8 +82,8 @@ def _simple(site, cls, task, line_of, what, nontrivial=True):
     return {"task": task, "site": site, "cls": cls, "lines": lines, "judge": judge, "nontrivial": nontrivial}
 
 
-def case_eig(g):
-    p, n, cls, cplx, A = _mk(g, EIG_CLASSES)
+def case_eig(g, structured=False):
+    p, n, cls, cplx, A = _mk(g, EIG_CLASSES, structured=structured)
     srt = g.r.choice([None, None, "real", "imag", "abs"])
     g.note("eig_sort", srt)
     task = {"op": "eig", "prec": p, "cplx": cplx, "A": toks_of(A), "sort": srt}
@@ -102,10 +119,11 @@ def case_eig(g):
     return c
 
 
-def case_eigh(g):
+def case_eigh(g, structured=False):
     r = g.r
     op = r.choice(["eigsy", "eighe", "eigh", "eigh"])
-    cls = r.choice(["symmetric", "symmetric", "hermitian", "spd", "repeated_sym", "diagonal", "zero", "identity", "hilbert", "zero_rows_sym"])
+    cls = "fam" if structured else r.choice(["symmetric", "symmetric", "hermitian", "spd", "repeated_sym", "diagonal", "zero", "identity", "hilbert", "zero_rows_sym",
+                                                    "fam", "fam", "fam"])
     p = g.prec()
     n = g.size()
     cplx = False
@@ -115,7 +133,11 @@ def case_eigh(g):
         cplx = True
     if cls == "spd":
         cplx = r.random() < 0.4
-    if cls == "zero_rows_sym":
+    if cls == "fam":
+        cplx = r.random() < 0.4 and op != "eigsy"
+        cls = "fam:" + r.choice(LF.SYM_FAMILIES)
+        A = LF.sym_family(g, cls[4:], n, p, cplx)
+    elif cls == "zero_rows_sym":
         A = g.matrix("symmetric", n, p, False)
         for i in r.sample(range(n), r.randint(1, max(1, n // 2))):
             for j in range(n):
@@ -141,15 +163,28 @@ def case_eigh(g):
     return _simple("eigen_symmetric." + op, "h:" + cls, task, line_of, "symmetric eigen decomposition fails", n >= 2)
 
 
-def case_svd(g):
+SVD_FAMILIES = ["bidiag", "bidiag", "bidiag", "zero_cols", "zero_cols", "zero_rows", "sparse", "sparse", "dup", "lowrank",
+                "block_tri", "block_diag", "graded_rows", "graded_cols", "graded_both", "diagdom", "near_upper", "near_lower", "zero_diag"]
+
+
+def case_svd(g, structured=False):
     r = g.r
     p = g.prec()
     m = g.size()
     n = g.size()
     cplx = r.random() < 0.4
-    cls = r.choice(["general", "general", "rankdef", "zero", "diagonal", "zero_rows"])
+    cls = "fam" if structured else r.choice(["general", "general", "rankdef", "zero", "diagonal", "zero_rows", "fam", "fam", "fam"])
     kind = g.kind()
-    A = g.rect(m, n, kind, p, cplx)
+    if cls == "fam":
+        # branches of the Golub-Reinsch iteration selected by the data: negligible diagonal entry of the bidiagonal form (the
+        # "cancellation" sweep, with U accumulated) at the first / an interior / the last position, negligible super-diagonal
+        # entries (splitting), zero-shift and z == 0 rotations; and the sign choices of the two-sided Householder reduction
+        cls = "fam:" + r.choice(SVD_FAMILIES)
+        if cls == "fam:bidiag" and r.random() < 0.6:
+            m = n = max(m, n, 3)
+        A = LF.rect_family(g, cls[4:], m, n, p, cplx, kind)
+    else:
+        A = g.rect(m, n, kind, p, cplx)
     if cls == "rankdef" and min(m, n) >= 2:
         if n >= 2:
             for i in range(m):
@@ -187,8 +222,8 @@ def case_svd(g):
     return _simple("eigen_symmetric." + op, "svd:" + cls, task, line_of, "svd fails", min(m, n) >= 2)
 
 
-def case_schur(g, op):
-    p, n, cls, cplx, A = _mk(g, EIG_CLASSES)
+def case_schur(g, op, structured=False):
+    p, n, cls, cplx, A = _mk(g, EIG_CLASSES, structured=structured)
     task = {"op": op, "prec": p, "cplx": cplx, "A": toks_of(A)}
     At = flat(task["A"])
     band = 0 if op == "schur" else 1
@@ -354,13 +389,36 @@ def run(ctx):
             print("replaying recorded task on the real code:", json.dumps(LA.replay_task(fi["task"]))[:2000])
     for c in build_cases(g, n_cases):
         eng.add(c)
+    # structured families only (separate PRNG stream; these cases are cheap): data-selected branches of the iterations
+    gs = MGen(ctx.seed * 1000003 + 3131)
+    n_str = 500 if ctx.quick else 9000
+    mk = [(9, lambda: case_svd(gs, True)), (4, lambda: case_eigh(gs, True)), (4, lambda: case_eig(gs, True)),
+          (2, lambda: case_schur(gs, "schur", True)), (1, lambda: case_schur(gs, "hessenberg", True))]
+    tot = sum(w for w, _ in mk)
+    for _ in range(n_str):
+        x = gs.r.random() * tot
+        for w, f in mk:
+            x -= w
+            if x < 0:
+                eng.add(f())
+                break
     out = eng.run()
+    for k, v in gs.hist.items():
+        g.hist["structured:" + k] = v
     cov = LA.coverage_of(out, g,
         "cases from one seeded PRNG: classes general/symmetric/hermitian/upper/lower/diagonal/defective (Jordan blocks under a "
         "unimodular similarity)/repeated eigenvalues/zero rows/zero/identity/hilbert-like/SPD, sizes 1..8 (svd: m,n in 1..8), real and "
         "complex, int/bigint/dyadic/decimal entries, precisions 30..300, eig_sort orderings none/real/imag/abs, svd full and "
         "economy, gauss_quadrature n=1..8 for legendre/legendre01/hermite/laguerre/chebyshev1/chebyshev2; outputs read exactly, "
-        "identities decided in exact arithmetic; non-trivial = size >= 2 and decided verdict",
+        "identities decided in exact arithmetic; non-trivial = size >= 2 and decided verdict; structured families "
+        "(harness/linalg_families.py; a share of the main stream plus a batch of their own): rows/columns graded by 2^k or 10^k (gaps "
+        "from 3 bits to beyond 2*prec; geometric, one outlier, two-level, shuffled, uniformly small/big), dominant diagonal, nearly "
+        "triangular (other triangle * 2^-gap), zero columns/rows at first/interior/last position, repeated rows/columns (up to sign "
+        "and 2^k), low rank, bidiagonal with exact or tiny (2^-gap) zeros on the diagonal/second diagonal at first/interior/last "
+        "position (upper, lower, embedded in tall and wide shapes), Hessenberg with zero/tiny sub-diagonal entries, tridiagonal "
+        "symmetric/Hermitian with zero/tiny off-diagonal entries, arrowhead, block triangular / block diagonal (also with a zero "
+        "block), sparse small-integer, zero diagonal; complex variants with all-zero, tiny or single non-zero imaginary parts (real "
+        "data on the complex code path)",
         len(PROGRAMS))
     cov["checker_requests"] = eng.nlines
     return {"coverage": cov, "failing_inputs": out["failing"], "disagreements": []}
